@@ -5,6 +5,17 @@ N="$1"
 mkdir -p /verif/seeded/$N
 cp /tmp/seed-$N/SEED/patch.diff /tmp/seed-$N/SEED/meta.json /verif/seeded/$N/
 cp /tmp/seed-$N/SEED/demo.c /tmp/seed-$N/SEED/demo.sh /verif/seeded/$N/ 2>/dev/null || true
+# the property id is the first three characters of the seed name; agents sometimes write the whole title there
+python3 - "$N" <<'PY'
+import json, sys
+n = sys.argv[1]
+p = '/verif/seeded/%s/meta.json' % n
+m = json.load(open(p))
+if m.get('property') != n[:3]:
+    m['property_text_from_agent'] = m.get('property')
+    m['property'] = n[:3]
+    json.dump(m, open(p, 'w'), indent=1)
+PY
 OUT=$(/verif/gen/run_seed.sh $N 2>&1 | grep -E "VIOLATION|HOLDS|VIOLATED|does not apply" | head -40)
 echo "$OUT"
 python3 - "$N" "$OUT" <<'PY'
